@@ -93,13 +93,13 @@ def bounds(rng, n, x0, patterns=None, force=None, radius=1.0):
 
 def reduced_dim(lb, ub):
     """Number of variables the solver keeps (documented rule: a variable is
-    fixed when lb <= ub and |lb - ub| < 10*eps*n*max(1, |finite bounds|))."""
+    fixed when lb_i <= ub_i and |lb_i - ub_i| < 10*eps*n*max(1, |lb_i|, |ub_i|))."""
     lb = np.asarray(lb, dtype=float)
     ub = np.asarray(ub, dtype=float)
     lo = np.where(np.isnan(lb), -INF, lb)
     hi = np.where(np.isnan(ub), INF, ub)
-    fin = np.concatenate([lo[np.isfinite(lo)], hi[np.isfinite(hi)]])
-    w = max(1.0, float(np.max(np.abs(fin)))) if fin.size else 1.0
+    w = np.maximum(1.0, np.maximum(np.where(np.isfinite(lo), np.abs(lo), 0.0),
+                                   np.where(np.isfinite(hi), np.abs(hi), 0.0)))
     tol = 10.0 * np.finfo(float).eps * max(lo.size, 1) * w
     with np.errstate(invalid="ignore"):
         fixed = (lo <= hi) & (np.abs(lo - hi) < tol)
@@ -374,6 +374,63 @@ def general(rng, *, n=None, con=None, bound_patterns=None, x0_where=None,
         spec["scribble"] = True     # user functions overwrite their argument
     spec["con_kind"] = con
     return spec
+
+
+def mixmag(rng, spec):
+    """Rewrite the limits of the linear / NonlinearConstraint objects of a
+    spec so that one component is a NARROW two-sided interval (width 1e-8 ..
+    1e-2, feasible at x0) while a sibling component of the same object has
+    huge limits (1e4 .. 1e13, far from active).  Whether lb_i = ub_i 'to
+    rounding' must be judged per component."""
+    from .problems import base_component
+    n = spec["n"]
+    x0 = np.asarray(spec["x0"], float)
+    done = 0
+    for c in spec.get("lin", []):
+        a = np.asarray(c["A"], float)
+        lo = np.asarray(c["lb"], float).copy()
+        hi = np.asarray(c["ub"], float).copy()
+        if a.shape[0] < 2:
+            a = np.vstack([a, rng.uniform(-1, 1, (1, n))])
+            lo = np.append(lo, 0.0)
+            hi = np.append(hi, 0.0)
+        v0 = np.where(np.isnan(a), 0.0, a) @ x0
+        _mix_limits(rng, v0, lo, hi)
+        c["A"], c["lb"], c["ub"] = a.tolist(), lo.tolist(), hi.tolist()
+        c.pop("kinds", None)
+        done += 1
+    for c in spec.get("nl", []):
+        if c.get("form") != "nlc":
+            continue
+        comps = list(c["comps"])
+        if len(comps) < 2:
+            comps.append(nl_component(rng, n))
+        m = len(comps)
+        v0 = np.array([base_component(cc, n)(x0) for cc in comps])
+        lo = np.broadcast_to(np.asarray(c["lb"], float), (len(c["comps"]),))
+        hi = np.broadcast_to(np.asarray(c["ub"], float), (len(c["comps"]),))
+        lo = np.append(lo, [0.0] * (m - lo.size)).astype(float)
+        hi = np.append(hi, [0.0] * (m - hi.size)).astype(float)
+        _mix_limits(rng, v0, lo, hi)
+        c["comps"], c["lb"], c["ub"] = comps, lo.tolist(), hi.tolist()
+        c["scalar"] = False
+        c.pop("kinds", None)
+        done += 1
+    if done:
+        spec["mixmag"] = True
+    return spec
+
+
+def _mix_limits(rng, v0, lo, hi):
+    m = v0.size
+    j = int(rng.integers(m))
+    k = (j + 1 + int(rng.integers(m - 1))) % m
+    gap = 10.0 ** rng.uniform(-8, -2)
+    lo[j] = v0[j] - gap * rng.random()
+    hi[j] = lo[j] + gap
+    big = 10.0 ** rng.uniform(4, 13)
+    lo[k], hi[k] = [(-big, big), (-INF, big), (-big, INF)][
+        int(rng.integers(3))]
 
 
 def spec_signature(spec):
